@@ -97,10 +97,11 @@ def ob_class(ob):
     return o
 
 
-def render_ob(ob, var="tt"):
+def render_ob(ob, var="tt", how="lit"):
+    """how = "bigrep": integer arguments are written in big representation (same value)"""
     o = ob["o"]
-    a1 = L.render_ix(ob["a1"])
-    a2 = L.render_ix(ob["a2"])
+    a1 = L.render_ix(ob["a1"], how)
+    a2 = L.render_ix(ob["a2"], how)
     t = var
     simple = {"len": "len(%s)", "list": "list(%s)", "splat": "[...%s]", "for": "(for (ee <- %s) yield ee)",
               "reverse": "reverse(%s)", "first": "first(%s)", "second": "second(%s)", "last": "last(%s)",
